@@ -46,6 +46,7 @@ class Slot {
 
 template <typename T>
 class MemoryPool {
+  ARDUINOJSON_VERIF_FRIEND
  public:
   void create(SlotCount cap, Allocator* allocator) {
     ARDUINOJSON_ASSERT(cap > 0);
